@@ -451,9 +451,19 @@ func runC17(tb report.TB, rep *report.Reporter, c c17Case) {
 			}
 		}
 		// queries keep working
-		_, qb, qraw := gqlDo(h, `{ repository { allBugs(first: 1) { totalCount } } }`, nil)
-		if qe, _ := qb["errors"].([]any); len(qe) > 0 || qb["data"] == nil {
-			fail("read-query-broken", qraw)
+		// every field of the Repository type that needs no argument of ours, and what hangs below the lists
+		for _, q := range []string{
+			`{ repository { allBugs(first: 1) { totalCount } } }`,
+			`{ repository { name userIdentity { id name } } }`,
+			`{ repository { allBugs(first: 3) { totalCount nodes { id humanId title status labels { name } author { id name } comments(first: 2) { totalCount nodes { message author { name } } } timeline(first: 2) { totalCount } operations(first: 2) { totalCount } actors(first: 2) { totalCount } participants(first: 2) { totalCount } } pageInfo { hasNextPage hasPreviousPage } } } }`,
+			`{ repository { allIdentities(first: 3) { totalCount nodes { id humanId name email login displayName isProtected } } validLabels(first: 3) { totalCount nodes { name } } } }`,
+		} {
+			_, qb, qraw := gqlDo(h, q, nil)
+			if qe, _ := qb["errors"].([]any); len(qe) > 0 || qb["data"] == nil {
+				if fail("read-query-broken", "query "+q+"\nanswer "+truncate(qraw, 600)) {
+					return
+				}
+			}
 		}
 		return
 	}
